@@ -110,8 +110,11 @@ impl<'a> MaximalBuf<'a> {
 // trait-level contract of BinEncodable::emit: what every implementor must guarantee and every
 // caller (emit_iter, Place::replace, emit_character_data) may rely on.
 pub trait BinEncodable {
+    // fixed-size primitives (u8/u16/u32/i32/Header) may also be emitted "in place" (offset moved back by
+    // Place::replace); every other emitter appends and needs the buffer to end at the offset
+    open spec fn in_place_ok() -> bool { false }
     fn emit(&self, encoder: &mut BinEncoder<'_>) -> (r: ProtoResult<()>)
-        requires old(encoder).wf_buf()
+        requires old(encoder).wf_buf(), old(encoder).tight() || Self::in_place_ok()
         ensures final(encoder).wf_buf(), old(encoder).wf_ptrs() ==> final(encoder).wf_ptrs(),
             final(encoder).max() == old(encoder).max(),
             final(encoder).offset >= old(encoder).offset,
@@ -180,15 +183,15 @@ impl<'a> BinEncoder<'a> {
 
 //%fn crates/proto/src/serialize/binary/encoder.rs :: impl<'a> BinEncoder<'a> :: emit_iter
 //%contract
-        requires old(self).wf()
+        requires old(self).wf(), old(self).tight()      // records are appended: the buffer ends at the offset
         ensures final(self).wf(), final(self).max() == old(self).max(),
             match r {
-                Ok(n) => final(self).offset >= old(self).offset && (old(self).tight() ==> final(self).tight()),
+                Ok(n) => final(self).offset >= old(self).offset && final(self).tight(),
                 // C03: after dropping the record that did not fit, the encoder is exactly as it was
                 // before that record: logical end restored, compression table restored, and NO
                 // physical bytes left beyond the logical end
                 Err(ProtoError::NotAllRecordsWritten { count }) =>
-                    final(self).offset >= old(self).offset && (old(self).tight() ==> final(self).tight()),
+                    final(self).offset >= old(self).offset && final(self).tight(),
                 Err(_) => true,
             },
             forall|i: int| 0 <= i < old(self).offset ==> final(self).bytes()[i] == old(self).bytes()[i],
@@ -202,7 +205,7 @@ impl<'a> BinEncoder<'a> {
         let ghost n_items = vp_items(iter);
 //%forloop "for i in iter"
             invariant self.wf(), self.max() == enc0.max(), self.offset >= enc0.offset,
-                enc0.tight() ==> self.tight(),
+                self.tight(),
                 forall|i: int| 0 <= i < enc0.offset ==> self.bytes()[i] == enc0.bytes()[i],
                 vp_it0.obeys_prophetic_iter_laws(), vp_it0.decrease() is Some,
                 count + vp_it0.remaining().len() == n_items < usize::MAX,
@@ -241,13 +244,15 @@ impl<'a> BinEncoder<'a> {
 //%sub1 "ProtoResult<Place<T>>" => "ProtoResult<Place<u16>>" # R-mono
 //%sub1 "phantom: PhantomData," => "phantom: core::marker::PhantomData," # R-sel: path made explicit
 //%contract
-        requires old(self).wf(), old(self).tight()
-        ensures final(self).wf(), final(self).max() == old(self).max(), final(self).name_pointers == old(self).name_pointers,
+        requires old(self).wf_buf(), old(self).tight()
+        ensures final(self).wf_buf(), old(self).wf_ptrs() ==> final(self).wf_ptrs(),
+            final(self).max() == old(self).max(), final(self).name_pointers == old(self).name_pointers,
             final(self).canonical_form == old(self).canonical_form, final(self).name_encoding == old(self).name_encoding,
             forall|i: int| 0 <= i < old(self).offset ==> final(self).bytes()[i] == old(self).bytes()[i],
             match r {
                 Ok(p) => p.start_index == old(self).offset && final(self).offset == old(self).offset + 2 && final(self).tight(),
-                Err(_) => final(self).offset == old(self).offset && final(self).bytes() == old(self).bytes(),
+                Err(e) => final(self).offset == old(self).offset && final(self).bytes() == old(self).bytes()
+                       && e == ProtoError::MaxBufferSizeExceeded(old(self).buffer.max_size),
             }
 //%end
 
@@ -319,6 +324,7 @@ pub fn vp_i32_to_be_bytes(v: i32) -> (r: [u8; 4])
 { v.to_be_bytes() }
 
 impl BinEncodable for u8 {
+    open spec fn in_place_ok() -> bool { true }
 //%fn crates/proto/src/serialize/binary/mod.rs :: impl BinEncodable for u8 :: emit
 //%contract
         ensures final(encoder).name_pointers == old(encoder).name_pointers,
@@ -333,6 +339,7 @@ impl BinEncodable for u8 {
 //%end
 }
 impl BinEncodable for u16 {
+    open spec fn in_place_ok() -> bool { true }
 //%fn crates/proto/src/serialize/binary/mod.rs :: impl BinEncodable for u16 :: emit
 //%contract
         ensures final(encoder).name_pointers == old(encoder).name_pointers,
@@ -349,6 +356,7 @@ impl BinEncodable for u16 {
 //%end
 }
 impl BinEncodable for u32 {
+    open spec fn in_place_ok() -> bool { true }
 //%fn crates/proto/src/serialize/binary/mod.rs :: impl BinEncodable for u32 :: emit
 //%contract
         ensures final(encoder).name_pointers == old(encoder).name_pointers,
@@ -363,6 +371,7 @@ impl BinEncodable for u32 {
 //%end
 }
 impl BinEncodable for i32 {
+    open spec fn in_place_ok() -> bool { true }
 //%fn crates/proto/src/serialize/binary/mod.rs :: impl BinEncodable for i32 :: emit
 //%contract
         ensures final(encoder).name_pointers == old(encoder).name_pointers,
@@ -380,9 +389,11 @@ impl Place<u16> {
 //%sub1 "data: T" => "data: u16" # R-mono: verified at T = u16 (RDLENGTH back-patch in Record::emit)
 //%sub "T::LEN" => "<u16 as EncodedSize>::LEN" # R-mono
 //%contract
-        requires old(encoder).wf(), self.start_index + 2 <= old(encoder).offset, old(encoder).tight()
-        ensures final(encoder).wf(), final(encoder).max() == old(encoder).max(), final(encoder).offset == old(encoder).offset,
+        requires old(encoder).wf_buf(), self.start_index + 2 <= old(encoder).offset, old(encoder).tight()
+        ensures final(encoder).wf_buf(), old(encoder).wf_ptrs() ==> final(encoder).wf_ptrs(),
+            final(encoder).max() == old(encoder).max(), final(encoder).offset == old(encoder).offset,
             final(encoder).tight(), final(encoder).name_pointers == old(encoder).name_pointers,
+            final(encoder).canonical_form == old(encoder).canonical_form, final(encoder).name_encoding == old(encoder).name_encoding,
             r is Ok,
             // the two reserved bytes now hold `data` big-endian (RDLENGTH == bytes emitted, C02) ...
             be16(final(encoder).bytes()[self.start_index as int], final(encoder).bytes()[self.start_index + 1]) == data as int,
